@@ -241,7 +241,8 @@ type tssWorld struct {
 	c11Checked    int
 	c11Oracle     int
 	internalTried int
-	internalGov   int // ... of which executed from a governance proposal
+	tooFewSeen    bool // a request was refused because fewer than threshold members were eligible
+	internalGov   int  // ... of which executed from a governance proposal
 	c09Checked    int
 	c09Choice     bool
 	// oracle source
@@ -986,6 +987,24 @@ func (w *tssWorld) observe(block []*builtTx, res *sim.BlockResult) bool {
 				w.stats["req_rejected_other"]++
 			}
 			w.failedCreate = true
+			// why it was refused: a creation can never fail on a missing nonce of a selected member (only members with a
+			// queued nonce are eligible), and "too few signers" is an error only when fewer than threshold members are eligible
+			eligible := 0
+			for _, m := range w.grp.Members {
+				if w.tssActive[m.Addr] && len(w.queue[m.Addr]) > 0 {
+					eligible++
+				}
+			}
+			if tr.Codespace == tsstypes.ModuleName && tr.Code == tsstypes.ErrDENotFound.ABCICode() {
+				w.fail(w.obs.c05 || w.obs.c09, "C05/nonce-less-member-selected", "signing request refused with %q: a member without a queued nonce was put on the committee (%d eligible members, threshold %d)", tr.Log, eligible, w.c.T)
+			}
+			if tr.Codespace == tsstypes.ModuleName && tr.Code == tsstypes.ErrInsufficientSigners.ABCICode() {
+				if eligible >= w.c.T {
+					w.fail(w.obs.c09, "C09/error-with-enough-eligible", "signing request refused with %q although %d members are active with a queued nonce (threshold %d)", tr.Log, eligible, w.c.T)
+				} else {
+					w.tooFewSeen = true
+				}
+			}
 		}
 	}
 
@@ -1230,6 +1249,9 @@ func (w *tssWorld) finish() {
 	v.Count("corrupt_tried", int64(w.corruptTried))
 	for k, n := range w.stats {
 		v.Count(k, n)
+	}
+	if w.tooFewSeen {
+		v.Class("request-refused-too-few-eligible")
 	}
 	if w.internalGov > 0 {
 		v.Class("internal-content-via-governance")
